@@ -261,7 +261,10 @@ SINGLES = ['(', ')', '((', '))', '()', 'and', 'AND', 'or', 'Or', 'not',
            'NOT', '"x"', "'x'", '""', "''", '"a:b"', 'x', 'a:b', 'a:', ':b',
            ':', '@', '!', '@@', '!!', '@:', 'a:b:c', 'role', 'rule', 'http',
            'role:', 'rule:', "'a':a", "'a':b", 'a.b:c', 'And:x', 'not:x',
-           '"x', 'x"', "'", '"', 'é', 'é:é', '%', 'x%', 'role:%(k)s']
+           '"x', 'x"', "'", '"', 'é', 'é:é', '%', 'x%', 'role:%(k)s',
+           # compatibility look-alikes of the special characters
+           '\uff20', '\ufe6b', '\uff01', 'role\uff1aa', '\uff20\uff20',
+           'role:\uff21', '\u2160:\u2160']
 S2_CREDS = [{}, {'roles': []}, {'roles': ['x', 'a', ''], 'a': 'b',
                                 'is_admin': True}]
 
